@@ -89,11 +89,12 @@ func casCallbackContext(c *Ctx) (lits map[*ssa.Function]bool, ctxFns map[*ssa.Fu
 }
 
 func checkC05(c *Ctx, r *Report) {
-	r.Explain = "Decides structural necessary conditions of 'acknowledged writes are never lost / one accepted child per parent': (R1) every conflict decision (IsIllegalConflict, revTreeConflictCheck, Document.IsInConflict, the leaf test of Put) is evaluated inside the compare-and-swap callback on the document value that callback was handed (so it is re-evaluated on every CAS retry against the freshly read document), and Put accepts a client-supplied parent only on the edge where that parent is a leaf; (R2) document sync metadata is committed only through the CAS loop of updateAndReturnDoc / ResyncDocument or through writes that carry a CAS value read earlier (never the constant 0); (R3) the sequence reserved for a write survives CAS retries in variables declared outside the callback, a sequence kept from an earlier attempt is reused only when it is still greater than the document's stored sequence, otherwise a new one is allocated (above the stored one). (R4) the post-commit CAS re-stamp is issued only against the CAS the writer's own commit returned (never a CAS read afterwards), so it cannot overwrite a revision committed in between. Not decided: that exactly one concurrent writer wins under every schedule, and that the feed ends up announcing the final revision."
+	r.Explain = "Decides structural necessary conditions of 'acknowledged writes are never lost / one accepted child per parent': (R1) every conflict decision (IsIllegalConflict, revTreeConflictCheck, Document.IsInConflict, the leaf test of Put) is evaluated inside the compare-and-swap callback on the document value that callback was handed (so it is re-evaluated on every CAS retry against the freshly read document), and Put accepts a client-supplied parent only on the edge where that parent is a leaf; (R2) document sync metadata is committed only through the CAS loop of updateAndReturnDoc / ResyncDocument or through writes that carry a CAS value read earlier (never the constant 0); (R3) the sequence reserved for a write survives CAS retries in variables declared outside the callback, a sequence kept from an earlier attempt is reused only when it is still greater than the document's stored sequence, otherwise a new one is allocated (above the stored one). (R4) the post-commit CAS re-stamp is issued only against the CAS the writer's own commit returned (never a CAS read afterwards), so it cannot overwrite a revision committed in between; (R5) the CAS callback carries nothing from one attempt into the next except the sequence bookkeeping and the function's named results. Not decided: that exactly one concurrent writer wins under every schedule, and that the feed ends up announcing the final revision."
 	c05R1(c, r)
 	c05R2(c, r)
 	c05R3(c, r)
 	c05R4(c, r)
+	c05R5(c, r)
 }
 
 func c05R1(c *Ctx, r *Report) {
@@ -413,5 +414,66 @@ func c05R4(c *Ctx, r *Report) {
 			})
 			r.Check("C05-R4", fmt.Sprintf("fn=%s correctVersionAheadOfCAS #%d cas=commit-result", c.FuncName(fn), n), c.Pos(call.Pos()), ok, "receives the CAS returned by WriteUpdateWithXattrs", "the CAS correction is not handed the CAS of the commit it corrects")
 		}
+	}
+}
+
+// C05-R5: the CAS callback of the document write path runs once per attempt on a freshly read document. The only state it may carry
+// from one attempt to the next is the sequence bookkeeping (the sequence reserved so far and the list of superseded ones, handed to
+// documentUpdateFunc and released on failure — R3, C07-R4) and the enclosing function's named results. Any other captured variable
+// that an attempt writes and a later attempt reads before writing makes the retry act on the document the previous attempt saw.
+func c05R5(c *Ctx, r *Report) {
+	r.Rule("C05-R5", "E2 reaching stores on captured cells", "the CAS callback of updateAndReturnDoc carries across attempts only the sequence bookkeeping handed to documentUpdateFunc and the enclosing function's named results", 1)
+	top := c.Func("(*db.DatabaseCollectionWithUser).updateAndReturnDoc")
+	if top == nil {
+		r.Fail("C05-R5", "anchor updateAndReturnDoc", "-", "function not found")
+		return
+	}
+	n := 0
+	for _, lit := range top.AnonFuncs {
+		dufs := c.Calls(lit, false, nameIs("(*db.DatabaseCollectionWithUser).documentUpdateFunc"))
+		if len(dufs) == 0 {
+			continue
+		}
+		n++
+		allowed := map[ssa.Value]string{}
+		for _, d := range dufs {
+			args := callArgs(d)
+			for _, idx := range []int{4, 5} {
+				if idx < len(args) {
+					if ad, ok := loadOf(args[idx]); ok {
+						allowed[ad] = "sequence bookkeeping"
+					}
+				}
+			}
+		}
+		for _, al := range top.Locals {
+			_ = al
+		}
+		// named results of the enclosing function
+		resultCells := map[string]bool{}
+		if res := top.Signature.Results(); res != nil {
+			for i := 0; i < res.Len(); i++ {
+				if res.At(i).Name() != "" {
+					resultCells[res.At(i).Name()] = true
+				}
+			}
+		}
+		carried := carriedCellsDetailed(lit)
+		ok, bad := true, ""
+		for fv, ld := range carried {
+			if _, isAllowed := allowed[ssa.Value(fv)]; isAllowed {
+				continue
+			}
+			if al, isAlloc := freeVarBinding(fv).(*ssa.Alloc); isAlloc && resultCells[al.Comment] && al.Parent() == top {
+				continue // a named result of updateAndReturnDoc (role: result cell; its declared name is part of the signature)
+			}
+			ok = false
+			bad += fmt.Sprintf("%s (first read at %s) ", fv.Name(), c.Pos(ld.Pos()))
+		}
+		r.Check("C05-R5", "fn=updateAndReturnDoc$cas-callback carries-only=sequence-bookkeeping,named-results", c.Pos(lit.Pos()), ok,
+			"no other state flows from one CAS attempt into the next", "the CAS callback keeps state from a previous attempt: "+bad+"— a retry then acts on what the previous attempt computed from a document that has since been overwritten")
+	}
+	if n == 0 {
+		r.Fail("C05-R5", "fn=updateAndReturnDoc$cas-callback", c.Pos(top.Pos()), "the CAS callback was not found")
 	}
 }
